@@ -141,6 +141,25 @@ for _w in range(21):
 add("c06_twin", "c06::twin", ["C06"], "witness twin", expect="witness_fail")
 
 # ------------------------------------------------------------------------------------------------
+# C04 / C05 (conversion harnesses are generated from /repo/src, see lib/gen.py)
+# ------------------------------------------------------------------------------------------------
+prop("C04",
+     bounds="every From/TryFrom impl found in /repo/src on this run, each over the ENTIRE source type "
+            "(all 2^128 values for i128/u128, all usize/isize) - no sampling; T::new ok/must-panic over "
+            "the whole repr type in configurations default(std) and --no-default-features; MIN/MAX/"
+            "Default; FromStr over all ASCII strings up to length 4 (quick) / 6 resp. 5 (thorough); "
+            "accessor values of all valid messages; constructors, encoders and scanner outputs via the "
+            "in-range assertions of the C02/C06/C07/C09/C11/C14 harnesses",
+     outside="strings longer than the stated length or containing non-ASCII bytes; unsafe "
+             "new_unchecked with an invalid argument (outside the safe API)")
+prop("C05",
+     bounds="every From/TryFrom impl found in /repo/src on this run over the entire source type; "
+            "Eq/Ord/PartialOrd/Hash/max/Copy over all pairs of values; MIN/MAX/Default; FromStr over all "
+            "ASCII strings of length 0..=4 (quick), 0..=6 for U14 and 0..=5 for the u8-backed types "
+            "(thorough), unwind 9 with unwinding assertions; Display of every value into a stack buffer",
+     outside="strings longer than the bound, non-ASCII bytes, Display with width/fill/precision flags")
+
+# ------------------------------------------------------------------------------------------------
 
 def all_harnesses():
     import gen
